@@ -145,27 +145,25 @@ impl std::fmt::Display for ParseErrorDisplayPretty<'_> {
                 node
             }
         };
-        if node.byte_range().is_empty() {
-            writeln!(f, "")?;
-        } else {
-            let start_column = node.start_position().column;
-            let end_column = node.start_position().column
-                + self.source[node.byte_range()]
-                    .chars()
-                    .take_while(|c| *c != '\n')
-                    .count();
-            write!(
-                f,
-                "{}",
-                Excerpt::from_source(
-                    self.path,
-                    self.source,
-                    node.start_position().row,
-                    start_column..end_column,
-                    0,
-                ),
-            )?;
-        }
+        // a zero-width (missing) node gets an excerpt with an empty column range, so that the
+        // location is cited for every error
+        let start_column = node.start_position().column;
+        let end_column = node.start_position().column
+            + self.source[node.byte_range()]
+                .chars()
+                .take_while(|c| *c != '\n')
+                .count();
+        write!(
+            f,
+            "{}",
+            Excerpt::from_source(
+                self.path,
+                self.source,
+                node.start_position().row,
+                start_column..end_column,
+                0,
+            ),
+        )?;
         Ok(())
     }
 }
